@@ -606,10 +606,11 @@ def rules(repo, tier):
     from ..optional import rule_optional
     from ..mode import mode_rules
     from ..callsig import rule_callsig
+    from ..docsig import rule_docsig
     from ..restore import rule_restore
     return list(_rules_core(repo, tier)) + [rule_memo(repo, 'C20.MEMO', 'history independence: nothing computed from the contents of a tensor argument is kept '
                                                       'under the identity, address or version of that tensor, in module-level storage, or published from a generator '
                                                       'before it is complete - a later call with the same object and other contents must not be answered from it',
                                                       ['pypose.optim.scheduler', 'pypose.utils.stepper'], floor=3),
-            rule_optional(repo, 'C20.OPT', ['pypose.optim.scheduler', 'pypose.utils.stepper'])] + mode_rules(repo, 'C20', ['pypose.optim.scheduler', 'pypose.utils.stepper']) + [rule_callsig(repo, 'C20.SIG', ['pypose.optim.scheduler', 'pypose.utils.stepper'])] + [
+            rule_optional(repo, 'C20.OPT', ['pypose.optim.scheduler', 'pypose.utils.stepper'])] + mode_rules(repo, 'C20', ['pypose.optim.scheduler', 'pypose.utils.stepper']) + [rule_callsig(repo, 'C20.SIG', ['pypose.optim.scheduler', 'pypose.utils.stepper']), rule_docsig(repo, 'C20.DOC', ['pypose.optim.scheduler', 'pypose.utils.stepper'])] + [
             rule_restore(repo, 'C20.TEMP', ['pypose.optim.scheduler', 'pypose.utils.stepper', 'pypose.module.mpc', 'pypose.module.icp'])]
